@@ -554,6 +554,9 @@ func extractC03() *lean {
 	}
 	l.def("generateKeyPairType", "String", c03Str(genType), genType)
 
+	// ---------- H. formatting of key-typed variables in error / log / string-building calls under crypto/
+	c03FormatSites(l)
+
 	// ---------- F. repo-wide inventory
 	c03Inventory(l)
 	return l
@@ -824,4 +827,207 @@ func c03Inventory(l *lean) {
 	l.def("keyTouching", "List Fn", "[\n  "+strings.Join(q, ",\n  ")+"]", raw)
 	l.def("inventoryFiles", "Nat", strconv.Itoa(nFiles), nFiles)
 	l.def("inventoryFuncs", "Nat", strconv.Itoa(nFuncs), nFuncs)
+}
+
+// ---------------------------------------------------------------------------------------------------------
+// every fmt / errors / logrus call under crypto/ (non-test) that is handed a variable which holds (or may hold) a
+// private key: parameters / declarations of a private-key type, results of the key-producing calls, type-switch and
+// assertion bindings of such variables. Recorded with the format verb that renders it (%T prints the type only).
+
+var c03KeyProducers = map[string]bool{"GetPrivateKey": true, "getPrivateKey": true, "GenerateKeyPair": true, "GenerateKey": true,
+	"PemToPrivateKey": true, "PrivateKeyToPem": true, "ParsePKCS8PrivateKey": true, "ParseECPrivateKey": true, "ParsePKCS1PrivateKey": true,
+	"MarshalPKCS8PrivateKey": true, "GenerateJWK": true, "NewKeyFromSeed": true, "ImportECDSA": true}
+
+var c03FormatFuncs = map[string]bool{"Errorf": true, "Sprintf": true, "Sprint": true, "Sprintln": true, "Printf": true, "Println": true, "Print": true,
+	"Fprintf": true, "Fprint": true, "Fprintln": true, "Infof": true, "Info": true, "Debugf": true, "Debug": true, "Warnf": true, "Warn": true,
+	"Warningf": true, "Error": true, "Tracef": true, "Trace": true, "Fatalf": true, "Fatal": true, "Panicf": true, "Panic": true,
+	"WithField": true, "WithFields": true, "WithError": true, "Wrap": true, "Wrapf": true, "Join": true, "InvalidInputError": true}
+
+func c03PrivTypeSrc(t string) bool {
+	return (strings.Contains(t, "PrivateKey") || strings.Contains(t, "crypto.Signer") || t == "jwk.Key" || strings.Contains(t, "crypto.Decrypter")) && !strings.Contains(t, "PublicKey")
+}
+
+func c03Verbs(format string) []string {
+	var v []string
+	for i := 0; i < len(format); i++ {
+		if format[i] != '%' {
+			continue
+		}
+		j := i + 1
+		for j < len(format) && strings.ContainsRune("+-# 0123456789.*[]", rune(format[j])) {
+			j++
+		}
+		if j < len(format) {
+			if format[j] != '%' {
+				v = append(v, format[i:j+1])
+			}
+			i = j
+		}
+	}
+	return v
+}
+
+func c03RootIdent(e ast.Expr) string {
+	switch x := e.(type) {
+	case *ast.Ident:
+		return x.Name
+	case *ast.StarExpr:
+		return c03RootIdent(x.X)
+	case *ast.UnaryExpr:
+		return c03RootIdent(x.X)
+	case *ast.ParenExpr:
+		return c03RootIdent(x.X)
+	case *ast.SelectorExpr:
+		return c03RootIdent(x.X)
+	case *ast.TypeAssertExpr:
+		return c03RootIdent(x.X)
+	case *ast.IndexExpr:
+		return c03RootIdent(x.X)
+	}
+	return ""
+}
+
+func c03FormatSites(l *lean) {
+	var files []string
+	_ = filepath.Walk(filepath.Join(repo, "crypto"), func(p string, info os.FileInfo, err error) error {
+		if err == nil && !info.IsDir() && strings.HasSuffix(p, ".go") && !strings.HasSuffix(p, "_test.go") && !strings.HasPrefix(info.Name(), "zz_verif") &&
+			info.Name() != "mock.go" && info.Name() != "generated.go" {
+			files = append(files, p)
+		}
+		return nil
+	})
+	sort.Strings(files)
+	var q, raw []string
+	nCalls := 0
+	for _, p := range files {
+		fset := token.NewFileSet()
+		f, err := parser.ParseFile(fset, p, nil, 0)
+		if err != nil {
+			continue
+		}
+		rel, _ := filepath.Rel(repo, p)
+		for _, d := range f.Decls {
+			fd, ok := d.(*ast.FuncDecl)
+			if !ok || fd.Body == nil {
+				continue
+			}
+			tainted := map[string]bool{}
+			if fd.Type.Params != nil {
+				for _, fl := range fd.Type.Params.List {
+					if c03PrivTypeSrc(c03Src(fset, fl.Type)) {
+						for _, n := range fl.Names {
+							tainted[n.Name] = true
+						}
+					}
+				}
+			}
+			if fd.Recv != nil { // methods of a type that wraps a key (e.g. MemoryJWTSigner: m.Key) are covered by selector roots below
+			}
+			// two passes so that later bindings of earlier tainted variables are seen
+			for pass := 0; pass < 2; pass++ {
+				ast.Inspect(fd.Body, func(n ast.Node) bool {
+					switch x := n.(type) {
+					case *ast.AssignStmt:
+						if len(x.Rhs) == 1 {
+							taint := false
+							switch r := x.Rhs[0].(type) {
+							case *ast.CallExpr:
+								name := ""
+								switch fx := r.Fun.(type) {
+								case *ast.SelectorExpr:
+									name = fx.Sel.Name
+								case *ast.Ident:
+									name = fx.Name
+								}
+								if c03KeyProducers[name] {
+									taint = true
+								}
+								if name == "FromRaw" && len(r.Args) > 0 && tainted[c03RootIdent(r.Args[0])] {
+									taint = true
+								}
+							case *ast.TypeAssertExpr:
+								taint = tainted[c03RootIdent(r.X)]
+							case *ast.Ident, *ast.UnaryExpr, *ast.StarExpr:
+								taint = tainted[c03RootIdent(r)]
+							}
+							if taint {
+								if id, ok := x.Lhs[0].(*ast.Ident); ok && id.Name != "_" {
+									tainted[id.Name] = true
+								}
+							}
+						}
+					case *ast.TypeSwitchStmt:
+						if as, ok := x.Assign.(*ast.AssignStmt); ok && len(as.Rhs) == 1 && tainted[c03RootIdent(as.Rhs[0])] {
+							if id, ok := as.Lhs[0].(*ast.Ident); ok {
+								tainted[id.Name] = true
+							}
+						}
+					case *ast.ValueSpec:
+						if x.Type != nil && c03PrivTypeSrc(c03Src(fset, x.Type)) {
+							for _, n := range x.Names {
+								tainted[n.Name] = true
+							}
+						}
+					case *ast.RangeStmt:
+						if tainted[c03RootIdent(x.X)] {
+							if id, ok := x.Value.(*ast.Ident); ok {
+								tainted[id.Name] = true
+							}
+						}
+					}
+					return true
+				})
+			}
+			if len(tainted) == 0 {
+				continue
+			}
+			fname := fd.Name.Name
+			if r := c03RecvName(fd); r != "" {
+				fname = r + "." + fname
+			}
+			ast.Inspect(fd.Body, func(n ast.Node) bool {
+				c, ok := n.(*ast.CallExpr)
+				if !ok {
+					return true
+				}
+				name := ""
+				switch fx := c.Fun.(type) {
+				case *ast.SelectorExpr:
+					name = fx.Sel.Name
+				}
+				if !c03FormatFuncs[name] {
+					return true
+				}
+				nCalls++
+				var verbs []string
+				first := 0
+				for i, a := range c.Args {
+					if fs, ok := c03Unquote(a); ok && strings.Contains(fs, "%") {
+						verbs = c03Verbs(fs)
+						first = i + 1
+						break
+					}
+				}
+				for i, a := range c.Args {
+					// method calls on the key (key.Public(), key.KeyID()) render their result, not the key
+					if _, isCall := a.(*ast.CallExpr); isCall {
+						continue
+					}
+					root := c03RootIdent(a)
+					if root == "" || !tainted[root] {
+						continue
+					}
+					verb := "%v"
+					if verbs != nil && i >= first && i-first < len(verbs) {
+						verb = verbs[i-first]
+					}
+					q = append(q, c03Tuple(c03Str(rel), c03Str(fname), c03Str(exprString(c.Fun)), c03Str(verb), c03Str(c03Src(fset, a))))
+					raw = append(raw, fmt.Sprintf("%s:%s %s(%s ← %s)", rel, fname, exprString(c.Fun), verb, c03Src(fset, a)))
+				}
+				return true
+			})
+		}
+	}
+	l.def("keyFormatSites", "List (String × String × String × String × String)", "["+strings.Join(q, ", ")+"]", raw)
+	l.def("keyFormatCallsInspected", "Nat", strconv.Itoa(nCalls), nCalls)
 }
